@@ -108,16 +108,27 @@ def value_tasks(pid, tier, repo, seed, R):
 
 
 def c12_tasks(pid, tier, repo, seed, R):
-    tasks = value_tasks(pid, tier, repo, seed, R) + def_tasks(pid, tier, repo, seed, R, ["_from_base", "_to_base"])
+    # conversion in and out, the in-place merge every load / update() / reset() goes through, and the two resource
+    # functions (what is saved is exactly the view; what is loaded is exactly the resource content)
+    tasks = value_tasks(pid, tier, repo, seed, R) + def_tasks(pid, tier, repo, seed, R, ["_from_base", "_to_base", "_update"])
+    for cname in concrete_classes(R):
+        info = R["classes"][cname]
+        for threads in ((True, False) if info["supports_threading"] else (False,)):
+            tasks.append(dict(kind="defs", repo=repo, seed=seed, cname=cname, role="root", rootkind=None,
+                              functions=["_save_to_resource", "_load_from_resource"], props=[pid], threads=threads,
+                              label=f"{pid}:def:{cname}:resource:threads={threads}"))
     cl = concrete_classes(R)
     for c in cl:
         tasks.append(dict(kind="c12", repo=repo, seed=seed, cname=c, props=[pid], threads=True, label=f"C12:default:{c}"))
     pick = cl if tier == "thorough" else [c for c in cl if c in ("JSONDict", "JSONList", "MemoryBufferedJSONAttrDict",
                                                                  "BufferedJSONList", "RedisDict", "MongoDBList", "ZarrDict")]
     sweeps = [(f"{c}:round-trip", "replay/roundtrip_replay.py", ["search", c],
-               "30 JSON values (boundary scalars, 2**70, unicode/escapes, empty keys/containers, bool/int/float "
-               "look-alikes, nestings) x every mutating entry point incl. overwrite of a look-alike; read back by a "
-               "fresh object; equality and leaf types") for c in pick]
+               "33 JSON values (boundary scalars, 2**70, unicode/escapes, empty keys/containers, bool/int/float "
+               "look-alikes, nestings) x every mutating entry point incl. overwriting a look-alike, an existing "
+               "container and longer content; read back by a fresh object; equality and leaf types") for c in pick]
+    sweeps += [(f"{c}:round-trip:nothreads", "replay/roundtrip_replay.py", ["search", c, "nothreads"],
+                "the same sweep with the class's thread-safety layer switched off (plain in-place writes)")
+               for c in pick if R["classes"][c]["supports_threading"] and (tier == "thorough" or c in ("JSONDict", "BufferedJSONList"))]
     tasks.append(dict(kind="bounded", repo=repo, seed=seed, props=[pid], sweeps=sweeps, threads=True, label=f"{pid}:bounded:round-trip"))
     return tasks
 
